@@ -163,7 +163,7 @@ EditsOf(kind) ==
     [] kind = "ReplaceCovByStdev" -> {[k |-> "ReplaceCovByStdev"]}
     [] kind = "AttachHeights" -> {[k |-> "AttachHeights", s |-> s] : s \in 1..4}     \* 1: instrument heights, 2: both, 3: small target heights only, 4: small instrument heights only
     [] kind = "MakeFree" -> {[k |-> "MakeFree", s |-> s] : s \in 1..6}
-    [] kind = "Isolate" -> {[k |-> "Isolate", s |-> s] : s \in 1..2}
+    [] kind = "Isolate" -> {[k |-> "Isolate", s |-> s] : s \in 1..4}      \* 1, 2: sight in the first quadrant (2: with a height difference); 3, 4: second / fourth quadrant
     [] kind = "InputFeatures" -> {[k |-> "InputFeatures", s |-> s] : s \in 1..5}
          \* optional forms of the input language: 1 a <coordinates> cluster with one point observed in x,y only followed by another observed in z only,
          \* 2 <dh> with dist and stdev, 3 <dh> with dist only, 4 directions with from_dh / to_dh, 5 extern attributes
